@@ -295,6 +295,16 @@ int main(int argc, char** argv) {
     f5.chunk = 16;
     f5.rule = "every value with <= 2 children per container and nesting depth <= 2 (leaves 1, {}, a string holding ] \" {; keys a,b in both orders and duplicated) x all paths of depth <= 3";
     fams.push_back(f5);
+    // OL: a long container that must be SKIPPED, holding one special item at every offset: the lookups of the
+    // member / element that follows it must still succeed (string-mask carries across 64-byte blocks)
+    vr::Family f6;
+    f6.name = "OL_skip_long_container";
+    f6.count = 150ull * 8 * 4;
+    f6.group = "OL";
+    f6.chunk = 32;
+    f6.rule = "texts [C,7] / {\"a\":C,\"b\":7} / [[C],7] / {\"a\":{\"z\":C},\"b\":7} where C is an array or object padded with n in 0..149 digits before one special item (string holding an escaped quote, string holding brackets, nested empty containers, escaped backslash + quote, long string, deeper nesting): every position of the special relative to the 32/64-byte blocks of the skipper";
+    fams.push_back(f6);
+    static const char* kSpecial[8] = {"\"\\\"\"", "\"]}[{\"", "[]", "{}", "\"\\\\\"", "\"q\\\\\\\"]\"", "[[\"]\"],{\"k\":\"}\"}]", "\"\\u005c\\\"\""};
     // OK: long keys with an escape at every offset relative to the vector blocks
     vr::Family f4;
     f4.name = "OK_long_escaped_keys";
@@ -306,6 +316,25 @@ int main(int argc, char** argv) {
     static const char* kEsc[5] = {"\\u0041", "\\/", "\\n", "\\\"", "\\\\"};
     static const char* kDec[5] = {"A", "/", "\n", "\"", "\\"};
     check = [&, NN, NP](const vr::Family& f, uint64_t idx, vr::Ctx& ctx) {
+      if (f.name[1] == 'L') {
+        unsigned wrap = (unsigned)(idx % 4);
+        idx /= 4;
+        unsigned sp = (unsigned)(idx % 8);
+        unsigned n = (unsigned)(idx / 8);
+        std::string pad(n, '1');
+        std::string C = (sp % 2 == 0) ? "[" + (n ? pad + "," : std::string()) + kSpecial[sp] + ",2]" : "{\"p\":" + (n ? pad : std::string("0")) + ",\"q\":" + kSpecial[sp] + ",\"r\":2}";
+        std::string text = wrap == 0 ? "[" + C + ",7]" : wrap == 1 ? "{\"a\":" + C + ",\"b\":7}" : wrap == 2 ? "[[" + C + "],7]" : "{\"a\":{\"z\":" + C + "},\"b\":7}";
+        ref::Result r = ref::parse(text);
+        if (!r.ok) {
+          ctx.violation("generator_invalid", "generator_invalid", text, "harness error: generated text is not valid");
+          return;
+        }
+        if (ctx.want_sample) ctx.sample(text);
+        static const std::vector<ref::Step> nopre;
+        static const JsonPointer nojp;
+        c10_text(text, r.v, paths, jps, nopre, nojp, ctx);
+        return;
+      }
       if (f.name[1] == 'W') {
         const std::string& s = (*owtexts)[idx];
         ref::Result r = ref::parse(s);
